@@ -264,6 +264,29 @@ def one_tree(tspec, acc, rnd, sample=False, forced=None):
             gi, bi2 = {n for n in ix.nodes if internal(n)}, {n for n in bx.nodes if internal(n)}
             if gi != bi2:
                 HUB.violation("C10", "internal-modules-changed-by-external-options", "internal modules differ between exclude and include mode under the same file exclusion", {"file_exclusions": list(px), "added": sorted(gi - bi2), "removed": sorted(bi2 - gi)})
+        # one project-wide pattern tuple (IGNORED = ("*vendor",)) handed to the file exclusions AND to the external
+        # exclusions, in one call and in calls that follow each other: as an external exclusion it keeps its meaning (the
+        # matching external module and everything below it disappear) whatever the same tuple was used for before
+        nested = sorted(n for n in externals_seen if "." in n)
+        if nested and (forced is None or forced.get("shared")):
+            if forced is None:
+                anc = rnd.choice(nested).split(".")[0]
+                shared = (rnd.choice([anc, "*" + anc, "*" + anc[1:]]),) + ((rnd.choice(["*__pycache__", "*.tox"]),) if rnd.random() < 0.5 else ())
+                order = rnd.sample(["ext", "file", "both", "ext"], 4)
+            else:
+                shared, order = tuple(forced["shared"][0]), forced["shared"][1]
+            seen = {}
+            for step in order:
+                kw = {"ext": {"exclude_external_libraries": False, "external_exclusions": shared}, "file": {"exclusions": shared}, "both": {"exclude_external_libraries": False, "external_exclusions": shared, "exclusions": shared}}[step]
+                se, case = scan("shared-pattern-tuple:" + step, **kw)
+                case["shared"] = [list(shared), order]
+                HUB.case = case
+                if step != "file":
+                    attribute_scan_findings(se, {"external": "C10", "hierarchy": "C10"}, case)
+                if step in seen and seen[step].state != se.state:
+                    HUB.violation("C10", "external-exclusions-depend-on-earlier-scans", "the same include-mode request gave another architecture after the same pattern tuple had been used as file exclusions", {"patterns": list(shared), "order": order, "nodes_diff": sorted(seen[step].nodes ^ se.nodes)[:12], "imports_diff": sorted(seen[step].imps ^ se.imps)[:12]})
+                seen[step] = se
+            acc.count("pattern_tuples_used_as_file_and_as_external_exclusions")
         acc.count("trees")
         if sample:
             acc.sample({"files": {k: v for k, v in list(tspec["files"].items())[:3]}, "module_path": mp_rel or ".", "configs": [c["kw"] for _s, c in configs], "externals_in_include_mode": sorted(externals_seen)[:10]})
@@ -273,12 +296,12 @@ def one_tree(tspec, acc, rnd, sample=False, forced=None):
 
 def replay(case, acc):
     rounds = [tuple(case["round"])] if case.get("round") else []
-    one_tree(case["spec"], acc, random.Random(0), forced={"mp": case["mp"], "rounds": rounds, "file_excl": case.get("file_excl")})
+    one_tree(case["spec"], acc, random.Random(0), forced={"mp": case["mp"], "rounds": rounds, "file_excl": case.get("file_excl"), "shared": case.get("shared")})
 
 
 def floors(acc, tier):
     why = []
-    for c, n in (("config_comparisons", 200), ("patterns_matching_internal_names", 20), ("patterns_matching_externals", 20), ("nested_external_nodes", 50), ("include_scans_with_file_exclusion_matching_an_external_name", 50), ("module_path_with_imported_prefix_sibling", 30), ("trees_with_1000+_import_statements", 4), ("scans_with_external_patterns_in_another_container", 50)):
+    for c, n in (("config_comparisons", 200), ("patterns_matching_internal_names", 20), ("patterns_matching_externals", 20), ("nested_external_nodes", 50), ("include_scans_with_file_exclusion_matching_an_external_name", 50), ("module_path_with_imported_prefix_sibling", 30), ("trees_with_1000+_import_statements", 4), ("scans_with_external_patterns_in_another_container", 50), ("pattern_tuples_used_as_file_and_as_external_exclusions", 50)):
         if acc.counters[c] < n:
             why.append(f"{c}: only {acc.counters[c]}")
     if acc.counters["scan_model_errors"]:
